@@ -37,7 +37,7 @@ def shape_strategy(big):
         "kind": st.just("compress"),
         "chunks": st.one_of(st.integers(0, 12), st.integers(0, 40 if big else 16)),
         "tail": st.one_of(st.just(0), st.just(0), st.integers(0, 99999)),
-        "fam": st.sampled_from(["rand", "text", "expand", "runs", "zeros"]),
+        "fam": st.sampled_from(["rand", "text", "expand", "runs", "zeros", "slowhead", "slowhead"]),
         "seq": st.booleans(),
         "seed": st.integers(0, 10**6),
     })
@@ -87,6 +87,10 @@ def build_input(exe, sh):
             d = (b"".join(bytes([65 + (i % 7)]) * 4 for i in range(n // 4 + 1)))[:n]
         elif fam == "runs":
             d = plain.seg_bytes(("runs", n // 50 + 1, 20, 5, sh["seed"]))[:n]
+        elif fam == "slowhead":
+            # one chunk that takes long to compress followed by chunks that take no time: the later blocks are all
+            # finished and waiting in the reorder queue while the block next in stream order is still being sorted
+            d = (plain.seg_bytes(("lcp", 100000, sh["seed"])) + bytes(max(0, n - 100000)))[:n]
         else:
             d = bytes(n)
         argv = ["-z", "-1"] + (["-u"] if sh["seq"] else [])
